@@ -220,14 +220,16 @@ func OpenDB(args ...interface{}) (massdb.MassDB, error) {
 		}
 	}
 
+	// report what the file header says, not what the caller expects, so that
+	// callers can detect a file whose header does not match its name
 	return &MassDBV1{
 		HashMapA:   hmA,
 		HashMapB:   hmB,
 		filePathA:  pathA,
 		filePathB:  pathB,
-		bl:         bitLength,
-		pubKey:     pubKey,
-		pubKeyHash: pocutil.PubKeyHash(pubKey),
+		bl:         hmB.bl,
+		pubKey:     hmB.pk,
+		pubKeyHash: hmB.pkHash,
 	}, nil
 }
 
